@@ -272,7 +272,17 @@ fn uglify(text: &str, variant: usize) -> String {
     }
 }
 
-pub const OFF_VARIANTS: usize = 6; // 2 comment kinds × 3 payload shapes
+pub const OFF_VARIANTS: usize = 18; // 6 directive spellings × 3 payload shapes
+
+/// Directive comments as users write them: bare, with a reason, with punctuation touching the directive.
+const DIRECTIVES: [&str; 6] = [
+    "/* @typstyle off */ ",
+    "// @typstyle off\n",
+    "/* @typstyle off: hand-aligned */ ",
+    "// (@typstyle off)\n",
+    "/* keep as is; @typstyle off. */ ",
+    "// @typstyle off, see #42\n",
+];
 
 pub fn off_sites(root: &SyntaxNode) -> Vec<mutate::NodeRef> {
     mutate::nodes_with_mode(root)
@@ -311,8 +321,8 @@ pub fn off_pool(bases: Arc<Vec<Base>>) -> MutPool {
             let v = j % OFF_VARIANTS;
             let text = &b.case.text;
             let at = if site.hashed { site.start - 1 } else { site.start };
-            let payload = uglify(&text[site.start..site.end], v / 2);
-            let directive = if v % 2 == 0 { "/* @typstyle off */ ".to_string() } else { "// @typstyle off\n".to_string() };
+            let payload = uglify(&text[site.start..site.end], v / DIRECTIVES.len());
+            let directive = DIRECTIVES[v % DIRECTIVES.len()].to_string();
             let m = format!("{}{}{}{}{}", &text[..at], directive, &text[at..site.start], payload, &text[site.end..]);
             let root = tree::parse_ok(&m)?;
             if mutate::count_comments(&root) != mutate::count_comments(&b.root) + 1 {
